@@ -68,7 +68,8 @@ def _cleanup():
 
 # ------------------------------------------------------------------ (a) register model
 EVENTS = []
-for name in ("writeA", "writeB", "changes", "normalize"):
+C_TEXT = '===C===\nK::"a\rb"\n===END===\n'       # canonical text that still contains a carriage return (inside a quoted string)
+for name in ("writeA", "writeB", "changes", "normalize", "writeC"):
     for dry in (False, True):
         for base in ("none", "current", "stale", "future"):
             EVENTS.append((name, dry, base))
@@ -87,6 +88,8 @@ def model_new_content(state, name):
         return A_TEXT, None
     if name == "writeB":
         return B_TEXT, None
+    if name == "writeC":
+        return C_TEXT, None
     if state is None:
         return None, "E_FILE"
     try:
@@ -145,6 +148,8 @@ def real_step(state, ev, bh, path):
         kw["content"] = A_TEXT
     elif name == "writeB":
         kw["content"] = B_TEXT
+    elif name == "writeC":
+        kw["content"] = C_TEXT
     elif name == "changes":
         kw["changes"] = json.loads(json.dumps(CHANGES))
     before_dir = sorted(os.listdir(os.path.dirname(path)))
@@ -175,6 +180,8 @@ def real_step_cli(state, ev, bh, path):
         argv += ["--content", A_TEXT]
     elif name == "writeB":
         argv += ["--content", B_TEXT]
+    elif name == "writeC":
+        argv += ["--content", C_TEXT]
     else:
         argv += ["--changes", json.dumps(CHANGES)]
     if bh:
@@ -203,7 +210,7 @@ def judge_step(state, ev, r, after, before_dir, after_dir, exp_cls, exp_next):
     code = (r.get("errors") or [{}])[0].get("code") if st == "error" else None
     cls = "success" if st == "success" else ("E_HASH" if code == "E_HASH" else f"error:{code}")
     if exp_cls == "UNSPEC":
-        if after is not None and after not in (A_TEXT, B_TEXT) and after != state:
+        if after is not None and after not in (A_TEXT, B_TEXT, C_TEXT) and after != state:
             out.append(("unspecified-case-left-partial-file", f"after={after!r}", "absent or complete"))
     else:
         if exp_cls.startswith("error:"):
@@ -250,7 +257,7 @@ def check_histories(case) -> Res:
                 for desc, obs, exp in judge_step(state, ev, r, after, bd, ad, exp_cls, exp_next):
                     key = f"history:{desc}:{ev[0]}{':dry' if ev[1] else ''}:base={ev[2]}"
                     viol.setdefault(key, dict(descriptor=key, case=dict(state=state, event=list(ev), base_hash=bh), observed=obs, expected=exp))
-                if not ev[1] and ev[0] in ("writeA", "writeB", "changes"):
+                if not ev[1] and ev[0] in ("writeA", "writeB", "writeC", "changes"):
                     rc, afterc, bdc, adc = real_step_cli(state, ev, bh, path)
                     transitions += 1
                     for desc, obs, exp in judge_step(state, ev, rc, afterc, bdc, adc, exp_cls, exp_next):
@@ -258,7 +265,7 @@ def check_histories(case) -> Res:
                         viol.setdefault(key, dict(descriptor=key, case=dict(state=state, event=list(ev), base_hash=bh, route="cli"), observed=obs, expected=exp))
                 if len(samples) < 6:
                     samples.append(dict(state=state, event=list(ev), envelope=r.get("status"), next=after))
-                if after not in seen:
+                if after not in seen and after != C_TEXT:      # the CR state is a sink here: re-reading it in text mode is KF-C04-2's business
                     seen[after] = level + 1
                     nxt.append(after)
             for kind, which in EXTERNAL:
@@ -407,7 +414,7 @@ def writer_fn(kind, path, base, content):
     return fn
 
 
-PAIRS = [("content", "content"), ("content", "changes"), ("changes", "normalize"), ("atomic", "atomic"), ("content", "atomic"), ("normalize", "normalize")]
+PAIRS = [("content", "content"), ("content", "atomic"), ("changes", "normalize"), ("atomic", "atomic"), ("content", "changes"), ("normalize", "normalize")]     # quick: the first four (one mixed-route pair: MCP tool vs file_ops/CLI writer)
 W_TEXT = ["===D===\nMETA:\n  TYPE::X\n---\nK::w0\n===END===\n", "===D===\nMETA:\n  TYPE::X\n---\nK::w1\nM::1\n===END===\n"]
 START = "===D===\nMETA:\n  TYPE::X\n---\nK :: start\n"       # non-canonical so that normalize also changes it
 
